@@ -11,8 +11,9 @@ import (
 )
 
 func init() {
-	Register("C03", func(c *Ctx) { runC03(c, true) })
-	Register("C03.nofault", func(c *Ctx) { runC03(c, false) })
+	Register("C03", func(c *Ctx) { runC03(c, true, false) })
+	Register("C03.nofault", func(c *Ctx) { runC03(c, false, false) })
+	Register("C03.file", func(c *Ctx) { runC03(c, true, true) })
 }
 
 func pickRateB(t *sim.Tape, label string, onNum, onDen int) int {
@@ -32,9 +33,10 @@ func serverMissing(w *World, remote string, exempt map[string]bool) (string, boo
 		oids = append(oids, oid)
 	}
 	sort.Strings(oids)
-	fr := w.FrontFor(remote)
-	fr.mu.Lock()
-	defer fr.mu.Unlock()
+	where := "the LFS server"
+	if w.FileRemotes[remote] {
+		where = "the file:// remote's store"
+	}
 	for _, oid := range oids {
 		if exempt[oid] {
 			continue
@@ -43,12 +45,12 @@ func serverMissing(w *World, remote string, exempt map[string]bool) (string, boo
 		if p.Size == 0 {
 			continue // the empty object is never transferred
 		}
-		data, ok := fr.Srv.Store[oid]
+		data, ok := w.StoreGet(remote, oid)
 		if !ok {
-			return fmt.Sprintf("object %s (size %d, paths %v) is referenced from the remote's refs but absent from the LFS server", oid[:12], p.Size, clipPaths(p.Paths)), true
+			return fmt.Sprintf("object %s (size %d, paths %v) is referenced from the remote's refs but absent from %s", oid[:12], p.Size, clipPaths(p.Paths), where), true
 		}
 		if Oid(data) != oid {
-			return fmt.Sprintf("object %s on the server has content hashing to %s", oid[:12], Oid(data)[:12]), true
+			return fmt.Sprintf("object %s in %s has content hashing to %s", oid[:12], where, Oid(data)[:12]), true
 		}
 	}
 	return "", false
@@ -62,10 +64,10 @@ func clipPaths(p []string) []string {
 	return p
 }
 
-func runC03(c *Ctx, faults bool) {
+func runC03(c *Ctx, faults, fileRemote bool) {
 	t := c.T
 	var f sim.Faults
-	if faults {
+	if faults && !fileRemote {
 		f.Batch5xx = pickRateB(t, "batch5xx", 1, 4)
 		f.Batch429 = pickRateB(t, "batch429", 1, 6)
 		f.RetryAfterKinds = 2
@@ -86,14 +88,27 @@ func runC03(c *Ctx, faults bool) {
 	u1 := filepath.Join(w.Root, "u1")
 	h := NewHist(w, u1)
 	h.Init()
-	w.MustGit(u1, "remote", "add", "origin", remote)
+	settings := map[string]string{}
+	if fileRemote {
+		// the remote is reached through a file:// URL: no LFS server, git-lfs's
+		// own standalone agent copies objects into <remote>/lfs/objects
+		w.FileRemotes = map[string]bool{remote: true}
+		w.MustGit(u1, "remote", "add", "origin", "file://"+remote)
+		settings["lfs.url"] = ""
+		c.Probe("file-remote")
+	} else {
+		w.MustGit(u1, "remote", "add", "origin", remote)
+	}
 	allowIncomplete := t.Bool(1, 5, "allowincompletepush")
 	batchSize := []string{"100", "1", "2", "3"}[t.Choose(4, "batch-size")]
-	w.ConfigureClone(u1, map[string]string{
+	for k, v := range map[string]string{
 		"lfs.allowincompletepush": fmt.Sprint(allowIncomplete),
 		"lfs.transfer.batchsize":  batchSize,
 		"lfs.concurrenttransfers": []string{"3", "1", "8"}[t.Choose(3, "concurrency")],
-	})
+	} {
+		settings[k] = v
+	}
+	w.ConfigureClone(u1, settings)
 	// fetch filters configured in the pushing clone say nothing about what a push uploads
 	switch t.Choose(6, "fetch-filter-in-pushing-clone") {
 	case 1:
@@ -108,10 +123,20 @@ func runC03(c *Ctx, faults bool) {
 	w.MustGit(u1, "config", "lfs.transfer.maxretries", []string{"2", "1", "8"}[t.Choose(3, "maxretries")])
 	if t.Bool(1, 4, "second-remote") {
 		remote2 = w.InitBare("remote2.git")
-		w.MustGit(u1, "remote", "add", "second", remote2)
+		if fileRemote && t.Bool(2, 3, "second-remote-is-file-too") {
+			w.FileRemotes[remote2] = true
+			w.MustGit(u1, "remote", "add", "second", "file://"+remote2)
+		} else if fileRemote {
+			// a file:// origin next to a remote served by an LFS server
+			w.MustGit(u1, "remote", "add", "second", remote2)
+			w.MustGit(u1, "config", "remote.second.lfsurl", w.LFSURL())
+			c.Probe("file-remote-next-to-http-remote")
+		} else {
+			w.MustGit(u1, "remote", "add", "second", remote2)
+		}
 		// the second remote may have its own LFS server (remote.<name>.lfsurl
 		// instead of one lfs.url for everything)
-		if t.Bool(1, 2, "second-remote-own-lfs-server") {
+		if !fileRemote && t.Bool(1, 2, "second-remote-own-lfs-server") {
 			fr2 := w.AddServer()
 			w.RemoteSrv = map[string]*Front{remote2: fr2}
 			w.MustGit(u1, "config", "--unset", "lfs.url")
@@ -198,10 +223,10 @@ func runC03(c *Ctx, faults bool) {
 				os.Remove(ObjectPath(filepath.Join(u1, ".git"), o))
 				lost = append(lost, o)
 				if t.Choose(2, "server-has-lost") == 1 {
-					for _, fr := range append([]*Front{w.Front}, w.Extra...) {
-						fr.mu.Lock()
-						fr.Srv.Store[o] = objs[o]
-						fr.mu.Unlock()
+					for _, r := range []string{remote, remote2} {
+						if r != "" {
+							w.StorePut(r, o, objs[o])
+						}
 					}
 				}
 				h.log("lost local object %s", o[:12])
@@ -234,7 +259,7 @@ func doPush(c *Ctx, w *World, h *Hist, u1, remote, remote2 string, allowIncomple
 	alreadyRemote := w.ReachablePointers(target, "--all")
 	for oid := range w.ReachablePointers(u1, "--all") {
 		if _, l := local[oid]; !l {
-			if _, s := w.FrontFor(target).Srv.Store[oid]; !s {
+			if _, s := w.StoreGet(target, oid); !s {
 				if _, r := alreadyRemote[oid]; !r {
 					absent[oid] = true
 				}
@@ -314,7 +339,7 @@ func doPush(c *Ctx, w *World, h *Hist, u1, remote, remote2 string, allowIncomple
 				exempt[oid] = true
 				c.Probe("incomplete-push-allowed")
 			} else {
-				if _, onSrv := w.FrontFor(target).Srv.Store[oid]; !onSrv {
+				if _, onSrv := w.StoreGet(target, oid); !onSrv {
 					c.Violation("push-succeeded-without-object", "%v exited 0 and moved refs of %s although object %s was absent locally and on the server and lfs.allowincompletepush is false; output: %s", args, filepath.Base(target), oid[:12], firstLine(out))
 					return
 				}
@@ -335,24 +360,32 @@ func serverGC(c *Ctx, w *World, remotes ...string) bool {
 		return false
 	}
 	dropped := false
-	for _, fr := range append([]*Front{w.Front}, w.Extra...) {
-		keep := map[string]bool{}
-		for _, r := range remotes {
-			if r == "" || w.FrontFor(r) != fr {
-				continue
-			}
-			for oid := range w.ReachablePointers(r, "--all") {
-				keep[oid] = true
-			}
+	// remotes sharing one store keep the union of what they reference
+	keepBy := map[string]map[string]bool{}
+	for _, r := range remotes {
+		if r == "" {
+			continue
 		}
-		fr.mu.Lock()
-		for oid := range fr.Srv.Store {
-			if !keep[oid] {
-				delete(fr.Srv.Store, oid)
+		k := w.StoreKey(r)
+		if keepBy[k] == nil {
+			keepBy[k] = map[string]bool{}
+		}
+		for oid := range w.ReachablePointers(r, "--all") {
+			keepBy[k][oid] = true
+		}
+	}
+	seen := map[string]bool{}
+	for _, r := range remotes {
+		if r == "" || seen[w.StoreKey(r)] {
+			continue
+		}
+		seen[w.StoreKey(r)] = true
+		for _, oid := range w.StoreOids(r) {
+			if !keepBy[w.StoreKey(r)][oid] {
+				w.StoreDelete(r, oid)
 				dropped = true
 			}
 		}
-		fr.mu.Unlock()
 	}
 	return dropped
 }
